@@ -3,11 +3,18 @@
 package c07
 
 import (
+	"bytes"
+	"encoding/json"
 	"fmt"
+	"net/http"
+	"net/http/httptest"
+	"strings"
 	"testing"
 	"testing/synctest"
 	"time"
 
+	"github.com/0xReLogic/Helios/internal/adminapi"
+	"github.com/0xReLogic/Helios/internal/config"
 	"github.com/0xReLogic/Helios/internal/loadbalancer"
 	"github.com/0xReLogic/Helios/verifharness/lab"
 	"pgregory.net/rapid"
@@ -33,18 +40,46 @@ func publishedState(lb *loadbalancer.LoadBalancer) int {
 	return 0
 }
 
+// Admin operations. A running balancer is reconfigured and looked at while it serves: backends are
+// added and removed (Admin API /v1/backends/add, /v1/backends/remove = LoadBalancer.AddBackend /
+// RemoveBackend), the strategy is switched (/v1/strategy), backends and metrics are listed. The
+// statement of C07 speaks of failed requests and elapsed time only; no admin operation is a failed
+// request, a trial request or a passage of time, so the monitor is fed exactly as without them:
+// whatever the operator does while the breaker is closed, open or half-open changes nothing in
+// what the breaker has to do. (The pool never becomes empty: "no backend at all" is not a proxied
+// request, and the statement does not say what it is.)
+type poolMember struct{ name, host string }
+
+func adminCall(h http.Handler, method, path string, body any) int {
+	var rd *bytes.Reader
+	if body != nil {
+		raw, _ := json.Marshal(body)
+		rd = bytes.NewReader(raw)
+	} else {
+		rd = bytes.NewReader(nil)
+	}
+	rec := httptest.NewRecorder()
+	req := httptest.NewRequest(method, path, rd)
+	req.RemoteAddr = "127.0.0.1:4999"
+	req.Header.Set("Content-Type", "application/json")
+	h.ServeHTTP(rec, req)
+	return rec.Code
+}
+
 type e2eEvent struct {
-	Kind string `json:"k"` // req | set | adv
+	Kind string `json:"k"` // req | set | adv | admin
 	I    int    `json:"i,omitempty"`
 	B    string `json:"b,omitempty"`
 	D    string `json:"d,omitempty"`
 }
 
 func TestC07EndToEnd(t *testing.T) {
-	sub := lab.Sub("breaker-end-to-end", "rapid histories over {request (one in five offering a protocol upgrade - websocket or h2c - or using POST/HEAD), request to a backend that never answers (cut by the 2 s handler timeout), set backend behaviour good/5xx (500, 501, 502, 503, 504, 505, 507 or 599, drawn per backend)/unreachable/abort-mid-body/1xx-then-5xx/1xx-then-200 (interim 100, 102 or 103), advance} against the real "+
+	sub := lab.Sub("breaker-end-to-end", "rapid histories over {admin operation (add a backend under a new or an already used name, remove a backend / an unknown name, switch the strategy, list backends, read metrics; through the Admin API handlers or the balancer's methods; in every breaker state; the pool of 1-6 backends never becomes empty) - none of which the monitor is told about, request (one in five offering a protocol upgrade - websocket or h2c - or using POST/HEAD), request to a backend that never answers (cut by the 2 s handler timeout), set backend behaviour good/5xx (500, 501, 502, 503, 504, 505, 507 or 599, drawn per backend)/unreachable/abort-mid-body/1xx-then-5xx/1xx-then-200 (interim 100, 102 or 103), advance} against the real "+
 		"LoadBalancer.ServeHTTP with circuit_breaker enabled by configuration, all five strategies, 1-3 scripted backends (L1), virtual time; "+
 		"monitor fed with client status + backend hit counts + published breaker state; non-trivial = breaker opened by proxied failures and half-open reached")
 	sub.NontrivialFloor(0.30)
+	sub.Floor("admin-op-while-open", 0.20)
+	sub.Floor("backend-added-or-removed-while-open", 0.10)
 	lab.Assume("L1: a scripted http.RoundTripper stands in for http.Transport; ErrAbortHandler panics are recovered by the harness as net/http's server would")
 	maxLen := lab.Scale(40, 80)
 	lab.Check(t, sub, 3000, 100000, func(rt *rapid.T) {
@@ -67,6 +102,9 @@ func TestC07EndToEnd(t *testing.T) {
 		var evs []e2eEvent
 		var viol string
 		dressed := 0
+		adminIn := map[mstate]int{}
+		poolChangedWhileOpen := 0
+		var adminSince []string // admin operations since the monitor last changed state
 		mon := NewMonitor(c)
 		wd := lab.StartWatchdog(t.Name(), "breaker-end-to-end", lab.NoProgress, func() any {
 			return map[string]any{"cfg": fmt.Sprintf("%+v", c), "strategy": strategy, "backends": nb, "events": evs}
@@ -80,6 +118,15 @@ func TestC07EndToEnd(t *testing.T) {
 			defer lb.Stop()
 			fn := lab.NewFakeNet()
 			fn.Install(lb)
+			acfg := *cfg
+			acfg.AdminAPI.Enabled, acfg.AdminAPI.Port = true, 9091
+			adminH := adminapi.NewMux(lb, &acfg, lb.GetMetricsCollector())
+			var pool []poolMember
+			for bi := 0; bi < nb; bi++ {
+				pool = append(pool, poolMember{lab.BackendName(bi), lab.BackendHost(bi)})
+			}
+			nextIdx := nb
+			lastState := mon.state
 			behaviours := []lab.Behaviour{lab.Good, lab.Status5xx, lab.Unreachable, lab.AbortBody, lab.Status4xx, lab.Interim5xx, lab.InterimGood}
 			// which 5xx a failing backend answers with, and which interim status precedes "103-then-..." answers, is drawn
 			// per backend: every 5xx is a failed response, every 1xx is only interim
@@ -97,17 +144,21 @@ func TestC07EndToEnd(t *testing.T) {
 			}
 			for i := 0; i < n; i++ {
 				k := rapid.IntRange(0, 99).Draw(rt, "kind")
-				pReq, pSet := 55, 80
-				if mon.state == mOpen {
-					pReq, pSet = 30, 40
+				if mon.state != lastState {
+					lastState, adminSince = mon.state, nil
+				}
+				pReq, pSet, pAdmin := 52, 72, 82
+				switch mon.state {
+				case mOpen:
+					pReq, pSet, pAdmin = 30, 38, 52
+				case mHalf:
+					pReq, pSet, pAdmin = 46, 60, 80
 				}
 				switch {
 				case k < 6 && mon.state != mOpen: // the picked backend accepts the request and never answers
 					evs = append(evs, e2eEvent{Kind: "req-hang"})
-					saved := map[string]bool{}
-					for bi := 0; bi < nb; bi++ {
-						saved[lab.BackendHost(bi)] = true
-						fn.Set(lab.BackendHost(bi), lab.Park)
+					for _, m := range pool {
+						fn.Set(m.host, lab.Park)
 					}
 					before := fn.Arrivals()
 					type res struct {
@@ -135,9 +186,9 @@ func TestC07EndToEnd(t *testing.T) {
 						<-ch
 						return
 					}
-					for bi := 0; bi < nb; bi++ {
-						fn.Set(lab.BackendHost(bi), lab.Good)
-						evs = append(evs, e2eEvent{Kind: "set", I: bi, B: "good"})
+					for bi, m := range pool {
+						fn.Set(m.host, lab.Good)
+						evs = append(evs, e2eEvent{Kind: "set", I: bi, B: "good", D: m.host})
 					}
 					o := Obs{Invoked: hit == 1, After: publishedState(lb)}
 					o.Failed = o.Invoked && (r.aborted || r.status >= 500)
@@ -197,10 +248,107 @@ func TestC07EndToEnd(t *testing.T) {
 						return
 					}
 				case k < pSet:
-					bi := rapid.IntRange(0, nb-1).Draw(rt, "backend")
+					bi := rapid.IntRange(0, len(pool)-1).Draw(rt, "backend")
 					b := rapid.SampledFrom(behaviours).Draw(rt, "behaviour")
-					fn.Set(lab.BackendHost(bi), b)
-					evs = append(evs, e2eEvent{Kind: "set", I: bi, B: b.String()})
+					fn.Set(pool[bi].host, b)
+					evs = append(evs, e2eEvent{Kind: "set", I: bi, B: b.String(), D: pool[bi].host})
+				case k < pAdmin:
+					op := rapid.SampledFrom([]string{"add", "add", "remove", "remove", "remove-unknown", "strategy", "list", "metrics"}).Draw(rt, "admin_op")
+					viaAPI := rapid.Bool().Draw(rt, "via_admin_api")
+					via := "balancer"
+					if viaAPI {
+						via = "admin-api"
+					}
+					if op == "add" && len(pool) >= 6 {
+						op = "remove"
+					}
+					var victim string
+					if op == "remove" {
+						victim = pool[rapid.IntRange(0, len(pool)-1).Draw(rt, "victim")].name
+						rest := 0
+						for _, m := range pool {
+							if m.name != victim {
+								rest++
+							}
+						}
+						if rest == 0 {
+							op = "remove-unknown" // the pool never becomes empty
+						}
+					}
+					desc, code, want := "", 0, 200
+					switch op {
+					case "add":
+						name := fmt.Sprintf("x%d", nextIdx)
+						if rapid.IntRange(0, 9).Draw(rt, "reuse_name") < 3 {
+							name = pool[rapid.IntRange(0, len(pool)-1).Draw(rt, "name_of")].name // AddBackend does not refuse a name in use
+						}
+						m := poolMember{name, lab.BackendHost(nextIdx)}
+						nextIdx++
+						bc := config.BackendConfig{Name: m.name, Address: "http://" + m.host, Weight: rapid.IntRange(1, 3).Draw(rt, "weight")}
+						b := rapid.SampledFrom(behaviours).Draw(rt, "initial")
+						fn.Set(m.host, b)
+						if viaAPI {
+							code, want = adminCall(adminH, "POST", "/v1/backends/add", bc), 201
+						} else if err := lb.AddBackend(bc); err != nil {
+							rt.Fatalf("harness: AddBackend(%+v): %v", bc, err)
+						}
+						fn.Install(lb) // the new backend's transport is the scripted network, too
+						pool = append(pool, m)
+						desc = fmt.Sprintf("add %s at %s weight %d answering %s", m.name, m.host, bc.Weight, b)
+					case "remove":
+						if viaAPI {
+							code = adminCall(adminH, rapid.SampledFrom([]string{"POST", "DELETE"}).Draw(rt, "method"), "/v1/backends/remove", map[string]string{"name": victim})
+						} else {
+							lb.RemoveBackend(victim)
+						}
+						kept := pool[:0:0]
+						for _, m := range pool {
+							if m.name != victim {
+								kept = append(kept, m)
+							}
+						}
+						pool = kept
+						desc = "remove " + victim
+					case "remove-unknown":
+						if viaAPI {
+							code = adminCall(adminH, "POST", "/v1/backends/remove", map[string]string{"name": "nobody"})
+						} else {
+							lb.RemoveBackend("nobody")
+						}
+						desc = "remove nobody (no such backend)"
+					case "strategy":
+						sname := rapid.SampledFrom(lab.Strategies).Draw(rt, "new_strategy")
+						if viaAPI {
+							code = adminCall(adminH, "POST", "/v1/strategy", map[string]string{"strategy": sname})
+						} else if err := lb.SetStrategy(sname); err != nil {
+							rt.Fatalf("harness: SetStrategy(%s): %v", sname, err)
+						}
+						desc = "strategy " + sname
+					case "list":
+						if viaAPI {
+							code = adminCall(adminH, "GET", "/v1/backends", nil)
+						} else {
+							_ = lb.ListBackends()
+						}
+						desc = "list backends"
+					case "metrics":
+						if viaAPI {
+							code = adminCall(adminH, "GET", "/v1/metrics", nil)
+						} else {
+							_ = lb.GetMetricsCollector().GetMetrics()
+						}
+						desc = "read metrics"
+					}
+					if viaAPI && code != want {
+						rt.Fatalf("harness: admin operation %q through the Admin API answered %d, expected %d", desc, code, want)
+					}
+					desc += " via " + via
+					evs = append(evs, e2eEvent{Kind: "admin", B: desc})
+					adminSince = append(adminSince, desc)
+					adminIn[mon.state]++
+					if mon.state == mOpen && (op == "add" || op == "remove") {
+						poolChangedWhileOpen++
+					}
 				default:
 					short := []time.Duration{time.Millisecond, c.Interval / 2, c.Interval - time.Millisecond, c.Timeout / 2, c.Timeout - time.Millisecond}
 					long := []time.Duration{c.Interval + time.Millisecond, c.Timeout + time.Millisecond, 2*c.Timeout + 2*c.Interval}
@@ -226,6 +374,17 @@ func TestC07EndToEnd(t *testing.T) {
 		}
 		if dressed > 0 {
 			labels = append(labels, "upgrade-offering-requests")
+		}
+		for st, l := range map[mstate]string{mClosed: "admin-op-while-closed", mOpen: "admin-op-while-open", mHalf: "admin-op-while-half-open"} {
+			if adminIn[st] > 0 {
+				labels = append(labels, l)
+			}
+		}
+		if poolChangedWhileOpen > 0 {
+			labels = append(labels, "backend-added-or-removed-while-open")
+		}
+		if viol != "" && len(adminSince) > 0 {
+			viol += fmt.Sprintf(" [admin operations since the breaker became %s, none of which may change what it does: %s]", mon.state, strings.Join(adminSince, "; "))
 		}
 		sub.Case(map[string]any{"cfg": fmt.Sprintf("%+v", c), "strategy": strategy, "backends": nb, "events": evs}, mon.Opened > 0 && mon.HalfSeen > 0, labels...)
 		if viol != "" {
